@@ -82,6 +82,7 @@ func (c *container) Execve(ctx context.Context, param ExecveParam) runner.Result
 		return errResult("execve: sendCmd %v", err)
 	}
 	// sync function
+	verifPoint("host.execve.sent")
 	rep, msg, err := c.recvReply()
 	if err != nil {
 		return errResult("execve: recvReply %v", err)
@@ -116,6 +117,7 @@ func (c *container) Execve(ctx context.Context, param ExecveParam) runner.Result
 
 func (c *container) waitForDone(ctx context.Context, sTime time.Time) runner.Result {
 	mTime := time.Now()
+	verifPoint("host.waitForDone")
 	select {
 	case <-c.done: // socket error
 		return convertReplyResult(reply{}, sTime, mTime, c.err)
